@@ -241,6 +241,8 @@ def pattern_text(pat):
                 continue
             _, j, idx, share = a
             mf.add("nested_op")
+            if idx > 0:
+                mf.add("nested_result_index_gt0")
             if share and (j, idx) in result_vals:
                 mf.add("result_value_reused")
                 arg_ssas.append(result_vals[(j, idx)])
@@ -416,14 +418,18 @@ def _lit(vocab, x):
 def payload_text(pay):
     """Total builder: (text of a verified straight-line function, payload features). Ops of the arith
     dialect that would not verify with the requested shape are emitted as test.op instead (a
-    wrong-name near miss). Feature `attr_shadows_property`: an op carries one name both in its
-    property and in its attribute dictionary."""
+    wrong-name near miss). Features: `attr_shadows_property` an op carries one name both in its
+    property and in its attribute dictionary; `operand_is_nonfirst_result` some operand is the
+    second or a later result of its defining op."""
     vtypes = list(ARG_TYPES)
     lines = []
     feats = set()
+    nonfirst: set = set()       # value indices that are a second or later result of their op
     for op in pay["ops"]:
         name = _lit(NAMES, op["n"])
         args = [_mod(a, len(vtypes)) for a in op["a"]]
+        if nonfirst.intersection(args):
+            feats.add("operand_is_nonfirst_result")
         res = [_lit(TYPES, t) for t in op["r"]]
         at, pr = {}, {}
         for nm, v in op["at"]:
@@ -460,6 +466,7 @@ def payload_text(pay):
             feats.add("attr_shadows_property")
         first = len(vtypes)
         vtypes.extend(res)
+        nonfirst.update(range(first + 1, first + len(res)))
         lhs = ", ".join(f"%v{first + i}" for i in range(len(res)))
         s = (lhs + " = " if res else "") + f'"{name}"(' + ", ".join(f"%v{a}" for a in args) + ")"
         if pr:
